@@ -3337,7 +3337,16 @@ class TLSConnection(TLSRecordLayer):
                                             signature_scheme, None, None, None,
                                             prf_name, b'client')
 
-            public_key = client_cert_chain.getEndEntityPublicKey()
+            # apply the key size / curve policy of the settings to the
+            # client's key, as the TLS 1.2 and earlier code path does
+            for result in self._check_certchain_with_settings(
+                    client_cert_chain,
+                    settings):
+                if result in (0, 1):
+                    yield result
+                else:
+                    break
+            public_key = result
 
             if signature_scheme in (SignatureScheme.ed25519,
                     SignatureScheme.ed448, SignatureScheme.mldsa44,
